@@ -5,7 +5,8 @@ import AspireModel.Model.Session
   were weighted, and the stored configuration names the sampler that wrote that checkpoint, so that resuming from the
   file never mixes a population with a different proposal."
 
-  Model: `Model/Session.lean` (`Aspire.fit`, `sample_posterior`, `auto_checkpoint`, `resume_from_file`).  Core Lean only.
+  Model: `Model/Session.lean` (`Aspire.fit`, `sample_posterior`, `auto_checkpoint`, `resume_from_file`), in which
+  `sample_posterior` stores the proposal it samples with on EVERY run.  Core Lean only.
 
   The statement is FALSE of the current code at full strength (`consistent_after_any_sequence_false`).  What is proved:
 
@@ -14,11 +15,10 @@ import AspireModel.Model.Session
       - `okFit`   : the target file holds no checkpoint, or the call neither replaces the proposal
                     (`overwrite=False`) nor rewrites the configuration with a sampler other than SMC;
       - `okSample`, run that writes a checkpoint (SMC, completed or interrupted after >= 1 checkpoints, proposal
-                    present): the configuration is written or already names SMC, and the proposal is written
-                    (`saved_flow` flag of the context not yet set) or the file already holds the in-memory one;
+                    present): the configuration is written or already names SMC (the proposal is always written);
       - `okSample`, run that writes no checkpoint (importance sampler, SMC interrupted before its first checkpoint,
                     no proposal): the file holds no checkpoint, or the run leaves configuration (config off or
-                    sampler SMC) and proposal (flag set, or same proposal) as they are;
+                    sampler SMC) and proposal (none in memory, or the same one) as they are;
       - `enter`, `exit`, `resume` are always safe.
   * `safe_iff_consistent_throughout` : `Safe` is EXACTLY the set of sequences after each of whose operations every
     file is self-consistent — every excluded step breaks a file on the spot (`unsafe_breaks`), so `Safe` cannot be
@@ -28,20 +28,20 @@ import AspireModel.Model.Session
                                                  (`witness_other_sampler`, `witness_fit_after_resume`)
       c. an SMC run with the configuration switched off into a file whose configuration does not name SMC
                                                  (`witness_config_off`, `witness_resume_config_off`)
-      d. an SMC run that does not write the proposal because the context's `saved_flow` flag is already set, into a
-         file holding another proposal: refit inside a context, or explicit other path inside a context
-                                                 (`witness_refit_in_context`, `witness_other_path_in_context`)
-      e. a run that writes no checkpoint but replaces the proposal of a file holding a checkpoint: SMC interrupted
-         before its first checkpoint, or importance sampling, after a refit  (`witness_interrupted_before_first_checkpoint`)
-  * `disciplined_safe` : two rules on the control state (no refit in a context that has saved its proposal; inside a
-    context sample to the context's own file) make clause d impossible without looking at the file (`Saved` invariant:
-    a context whose `saved_flow` flag is set points to a file holding the in-memory proposal).
-  * `synSafe_safe`, `consistent_synSafe` : a purely syntactic (regular) sub-language — SMC-only sessions, fits without
-    overwrite, runs that reach their first checkpoint, contexts with `save_config=True` used as "fits, then runs" —
-    including refit + rerun to the same file any number of times (the history repaired by the recent fix).
+      d. a run that writes no checkpoint but replaces the proposal of a file holding a checkpoint: SMC interrupted
+         before its first checkpoint, or importance sampling, after a refit
+                                 (`witness_interrupted_before_first_checkpoint`, `witness_importance_after_refit`)
+  * `synSafe_safe`, `consistent_synSafe` : a purely syntactic sub-language (only the number of open contexts is
+    tracked) — SMC-only sessions, fits without overwrite, runs that reach their first checkpoint, to any file, contexts
+    with `save_config=True` nested at will — including refit + rerun to the same file any number of times, inside one
+    context or not (the histories repaired by the two fixes).
   * `resume_then_sample_safe` : resuming a file that holds a checkpoint and sampling is always safe.
-  * single-step facts: `sample_writes_current_flow(_ctx)`, `pinned_keeps_stale_flow`, `resume_uses_file_flow`,
-    `resume_never_mixes`, `resume_raises_without_config_or_flow`.
+  * single-step facts: `sample_writes_current_flow(_ctx,_default)`, `resume_uses_file_flow`, `resume_never_mixes`,
+    `resume_raises_without_config_or_flow`.
+  * the two earlier rules for writing the proposal are kept as variant step functions with their negative witnesses:
+    `stepSamplePinned` (only when the file has none; `pinned_keeps_stale_flow`) and `stepSampleOncePerContext`
+    (`oncePerContext_refit_in_context`, `oncePerContext_other_path_in_context`); the same histories now end
+    consistent (`refit_in_context_consistent`, `other_path_in_context_consistent`).
 -/
 namespace C14
 open Model
@@ -111,18 +111,19 @@ theorem consistent_after_any_sequence_false : ¬ consistent_after_any_sequence :
 /-! further histories of the same family ("a checkpoint stays/goes in the file while its proposal or configuration
     is replaced or not written") that the model of the current code exhibits -/
 
-/-- d1. refit and rerun INSIDE one context: the proposal is written once per context, so the second run's checkpoint
-    (weighted under version 2) sits next to proposal version 1 -/
-theorem witness_refit_in_context :
+/-- formerly a defect (proposal written once per context), repaired: refit and rerun INSIDE one context now ends
+    with the second proposal next to the checkpoint weighted under it.  The old behaviour is kept below as
+    `stepSampleOncePerContext` with the negative witness `oncePerContext_refit_in_context`. -/
+theorem refit_in_context_consistent :
     let s := srun {} [enter 1 true, fit none false, sample smc none true 0, fit none false, sample smc none true 0]
-    getFile s.files 1 = { flow := some 1, hasConfig := true, cfgSampler := some smc, ckpt := some (2, smc) } ∧
-    Consistent (getFile s.files 1) = false := by decide
+    getFile s.files 1 = { flow := some 2, hasConfig := true, cfgSampler := some smc, ckpt := some (2, smc) } ∧
+    AllConsistent s = true := by decide
 
-/-- d2. explicit other path inside a context whose `saved_flow` flag is set: file 2 gets a checkpoint and no proposal -/
-theorem witness_other_path_in_context :
+/-- formerly a defect, repaired: an explicit other path inside a context that has already saved its proposal -/
+theorem other_path_in_context_consistent :
     let s := srun {} [enter 1 true, fit none false, sample smc none true 0, sample smc (some 2) true 0]
-    getFile s.files 2 = { flow := none, hasConfig := true, cfgSampler := some smc, ckpt := some (1, smc) } ∧
-    Consistent (getFile s.files 2) = false := by decide
+    getFile s.files 2 = { flow := some 1, hasConfig := true, cfgSampler := some smc, ckpt := some (1, smc) } ∧
+    AllConsistent s = true := by decide
 
 /-- b'. `fit(path)` on the resumed instance rewrites the configuration without a sampler -/
 theorem witness_fit_after_resume :
@@ -136,9 +137,17 @@ theorem witness_resume_config_off :
     getFile s.files 1 = { flow := some 1, hasConfig := true, cfgSampler := none, ckpt := some (1, smc) } ∧
     Consistent (getFile s.files 1) = false := by decide
 
-/-- e. a run interrupted before its first checkpoint has already replaced the proposal -/
+/-- d. a run interrupted before its first checkpoint has already replaced the proposal -/
 theorem witness_interrupted_before_first_checkpoint :
     let s := srun {} [fit none false, sample smc (some 1) true 0, fit none false, sample smc (some 1) false 0]
+    getFile s.files 1 = { flow := some 2, hasConfig := true, cfgSampler := some smc, ckpt := some (1, smc) } ∧
+    Consistent (getFile s.files 1) = false := by decide
+
+/-- d'. the same with the importance sampler (writes no checkpoint) after a refit, configuration switched off so
+    that only the proposal is replaced -/
+theorem witness_importance_after_refit :
+    let s := srun {} [fit none false, sample smc (some 1) true 0, fit none false, enter 1 false,
+      sample importance none true 0]
     getFile s.files 1 = { flow := some 2, hasConfig := true, cfgSampler := some smc, ckpt := some (1, smc) } ∧
     Consistent (getFile s.files 1) = false := by decide
 
@@ -210,10 +219,9 @@ theorem sample_writes_current_flow (s : Sess) (p v n : Nat) (c : Bool) (hm : s.m
     unfold stepSample; simp [topDflt, hm, hd, getFile_setFile_same, hw']
   exact ⟨h1, by rw [h1]; simp [Consistent]⟩
 
-/-- the same inside a context that has not yet saved its proposal (whatever file the context points to) -/
+/-- the same inside any context, whether or not it has already saved a proposal (whatever file the context points to) -/
 theorem sample_writes_current_flow_ctx (s : Sess) (d : Dflt) (rest : List Dflt) (p v n : Nat) (c : Bool)
-    (hm : s.memFlow = some v) (hd : s.dstack = d :: rest) (hs : d.savedFlow = false)
-    (hw : c = true ∨ 0 < n) :
+    (hm : s.memFlow = some v) (hd : s.dstack = d :: rest) (hw : c = true ∨ 0 < n) :
     getFile (stepSample s .smc (some p) c n).files p =
       { flow := some v, hasConfig := true, cfgSampler := some .smc, ckpt := some (v, .smc) } ∧
     Consistent (getFile (stepSample s .smc (some p) c n).files p) = true ∧
@@ -222,12 +230,12 @@ theorem sample_writes_current_flow_ctx (s : Sess) (d : Dflt) (rest : List Dflt) 
   have h1 : getFile (stepSample s .smc (some p) c n).files p =
       { flow := some v, hasConfig := true, cfgSampler := some .smc, ckpt := some (v, .smc) } ∧
       (stepSample s .smc (some p) c n).dstack = { d with savedConfig := true, savedFlow := true } :: rest := by
-    unfold stepSample; simp [topDflt, setTop, hm, hd, hs, getFile_setFile_same, hw']
+    unfold stepSample; simp [topDflt, setTop, hm, hd, getFile_setFile_same, hw']
   exact ⟨h1.1, by rw [h1.1]; simp [Consistent], h1.2⟩
 
-/-- path omitted, context with `save_config=True` that has not yet saved its proposal -/
+/-- path omitted, context with `save_config=True` -/
 theorem sample_writes_current_flow_default (s : Sess) (d : Dflt) (rest : List Dflt) (v n : Nat) (c : Bool)
-    (hm : s.memFlow = some v) (hd : s.dstack = d :: rest) (hs : d.savedFlow = false) (hc : d.saveConfig = true)
+    (hm : s.memFlow = some v) (hd : s.dstack = d :: rest) (hc : d.saveConfig = true)
     (hw : c = true ∨ 0 < n) :
     getFile (stepSample s .smc none c n).files d.path =
       { flow := some v, hasConfig := true, cfgSampler := some .smc, ckpt := some (v, .smc) } ∧
@@ -235,10 +243,12 @@ theorem sample_writes_current_flow_default (s : Sess) (d : Dflt) (rest : List Df
   have hw' : (c || decide (0 < n)) = true := by rcases hw with h | h <;> simp [h]
   have h1 : getFile (stepSample s .smc none c n).files d.path =
       { flow := some v, hasConfig := true, cfgSampler := some .smc, ckpt := some (v, .smc) } := by
-    unfold stepSample; simp [topDflt, setTop, hm, hd, hs, hc, getFile_setFile_same, hw']
+    unfold stepSample; simp [topDflt, setTop, hm, hd, hc, getFile_setFile_same, hw']
   exact ⟨h1, by rw [h1]; simp [Consistent]⟩
 
-/-! ### the pre-fix rule -/
+/-! ### the two earlier rules for writing the proposal, kept as variants -/
+
+/-! #### pinned tree: the proposal is written only when the file has none -/
 
 def stepSamplePinned (s : Sess) (k : SamplerKind) (path : Option Nat) (completed : Bool) (ckptsBefore : Nat) : Sess :=
   let k := match k, s.resumeSampler with
@@ -291,6 +301,62 @@ theorem pinned_keeps_stale_flow :
       = { flow := some 2, hasConfig := true, cfgSampler := some smc, ckpt := some (2, smc) } ∧
     AllConsistent (srun {} refitHistory) = true := by decide
 
+/-! #### first fix: the proposal is written once per context (`saved_flow` flag consulted before writing) -/
+
+def stepSampleOncePerContext (s : Sess) (k : SamplerKind) (path : Option Nat) (completed : Bool) (ckptsBefore : Nat) :
+    Sess :=
+  let k := match k, s.resumeSampler with
+    | .importance, some r => r
+    | k, _ => k
+  let s := { s with lastSampler := some k }
+  let d := topDflt s
+  let (path, saveCfg) := match path, d with
+    | some p, _ => (some p, true)
+    | none, some d => (some d.path, d.saveConfig)
+    | none, none => (none, true)
+  match path with
+  | none => { s with resumeFrom := s.resumeFrom }
+  | some p =>
+    let f := getFile s.files p
+    let f := if saveCfg then { f with hasConfig := true, cfgSampler := some k } else f
+    let s := if saveCfg then (match d with | some d => setTop s { d with savedConfig := true } | none => s) else s
+    let savedFlow := match topDflt s with | some d => d.savedFlow | none => false
+    -- EARLIER RULE: the flag of the context suppresses the write
+    let writeFlow := s.memFlow.isSome && !savedFlow
+    let f := if writeFlow then { f with flow := s.memFlow } else f
+    let s := if writeFlow then (match topDflt s with | some d => setTop s { d with savedFlow := true } | none => s) else s
+    let wrote := match k with
+      | .smc => completed || 0 < ckptsBefore
+      | .importance => false
+    let f := match s.memFlow with
+      | some v => if wrote then { f with ckpt := some (v, k) } else f
+      | none => f
+    { s with files := setFile s.files p f }
+
+def sstepOnce (s : Sess) : SOp → Option Sess
+  | .sample k p c n => some (stepSampleOncePerContext s k p c n)
+  | op => sstep s op
+
+def srunOnce (s : Sess) : List SOp → Sess
+  | [] => s
+  | op :: rest => match sstepOnce s op with
+    | some s' => srunOnce s' rest
+    | none => srunOnce s rest
+
+/-- under the once-per-context rule a refit and rerun inside one context left proposal version 1 next to a
+    checkpoint weighted under version 2 -/
+theorem oncePerContext_refit_in_context :
+    let s := srunOnce {} [enter 1 true, fit none false, sample smc none true 0, fit none false, sample smc none true 0]
+    getFile s.files 1 = { flow := some 1, hasConfig := true, cfgSampler := some smc, ckpt := some (2, smc) } ∧
+    Consistent (getFile s.files 1) = false := by decide
+
+/-- under the once-per-context rule an explicit other path inside a context whose flag is set got a checkpoint and
+    no proposal -/
+theorem oncePerContext_other_path_in_context :
+    let s := srunOnce {} [enter 1 true, fit none false, sample smc none true 0, sample smc (some 2) true 0]
+    getFile s.files 2 = { flow := none, hasConfig := true, cfgSampler := some smc, ckpt := some (1, smc) } ∧
+    Consistent (getFile s.files 2) = false := by decide
+
 /-! ### shape of the two file-writing steps -/
 
 def target (s : Sess) (path : Option Nat) : Option (Nat × Bool) :=
@@ -309,7 +375,6 @@ def writesCkpt (k' : SamplerKind) (completed : Bool) (n : Nat) : Bool :=
   | .smc => completed || decide (0 < n)
   | .importance => false
 
-def topSavedFlow (s : Sess) : Bool := match topDflt s with | some d => d.savedFlow | none => false
 def topSavedConfig (s : Sess) : Bool := match topDflt s with | some d => d.savedConfig | none => false
 
 def sampleFile (f : CkFile) (saveCfg : Bool) (k' : SamplerKind) (writeFlow : Bool) (mem : Option Nat) (wrote : Bool) : CkFile :=
@@ -339,9 +404,9 @@ theorem stepSample_noTarget (s : Sess) (k : SamplerKind) (path : Option Nat) (c 
 theorem stepSample_target (s : Sess) (k : SamplerKind) (path : Option Nat) (c : Bool) (n : Nat) (p : Nat) (saveCfg : Bool)
     (h : target s path = some (p, saveCfg)) :
     (stepSample s k path c n).files = setFile s.files p
-      (sampleFile (getFile s.files p) saveCfg (effSampler s k) (s.memFlow.isSome && !topSavedFlow s) s.memFlow
+      (sampleFile (getFile s.files p) saveCfg (effSampler s k) s.memFlow.isSome s.memFlow
         (writesCkpt (effSampler s k) c n)) ∧
-    (stepSample s k path c n).dstack = markTop s.dstack saveCfg (s.memFlow.isSome && !topSavedFlow s) ∧
+    (stepSample s k path c n).dstack = markTop s.dstack saveCfg s.memFlow.isSome ∧
     (stepSample s k path c n).memFlow = s.memFlow := by
   have hn : decide (0 < n) = true ∨ decide (0 < n) = false := by cases decide (0 < n) <;> simp
   cases path with
@@ -353,13 +418,13 @@ theorem stepSample_target (s : Sess) (k : SamplerKind) (path : Option Nat) (c : 
       unfold stepSample
       cases hm : s.memFlow <;> rcases hr : s.resumeSampler with _ | _ | _ <;> cases k <;> cases c <;>
         rcases hn with hn | hn <;>
-        simp [topDflt, hd, hr, hn, sampleFile, markTop, topSavedFlow, effSampler, writesCkpt]
+        simp [topDflt, hd, hr, hn, sampleFile, markTop, effSampler, writesCkpt]
     | cons d rest =>
       obtain ⟨dp, dsc, dsvc, dsvf⟩ := d
       unfold stepSample
       cases hm : s.memFlow <;> cases dsvf <;> rcases hr : s.resumeSampler with _ | _ | _ <;> cases k <;> cases c <;>
         rcases hn with hn | hn <;>
-        simp [topDflt, setTop, hd, hr, hn, sampleFile, markTop, topSavedFlow, effSampler, writesCkpt]
+        simp [topDflt, setTop, hd, hr, hn, sampleFile, markTop, effSampler, writesCkpt]
   | none =>
     cases hd : s.dstack with
     | nil => simp [target, topDflt, hd] at h
@@ -370,7 +435,7 @@ theorem stepSample_target (s : Sess) (k : SamplerKind) (path : Option Nat) (c : 
       unfold stepSample
       cases hm : s.memFlow <;> cases dsvf <;> cases dsc <;>
         rcases hr : s.resumeSampler with _ | _ | _ <;> cases k <;> cases c <;> rcases hn with hn | hn <;>
-        simp [topDflt, setTop, hd, hr, hn, sampleFile, markTop, topSavedFlow, effSampler, writesCkpt]
+        simp [topDflt, setTop, hd, hr, hn, sampleFile, markTop, effSampler, writesCkpt]
 
 def fitFile (f : CkFile) (writeCfg : Bool) (last : Option SamplerKind) (overwrite : Bool) (v : Nat) : CkFile :=
   { hasConfig := f.hasConfig || writeCfg,
@@ -507,22 +572,21 @@ def okFit (s : Sess) (path : Option Nat) (o : Bool) : Bool :=
     (getFile s.files p).ckpt.isNone ||
       (!o && (!(saveCfg && !topSavedConfig s) || s.lastSampler == some .smc))
 
-/-- `sample_posterior`.
-    A run that writes a checkpoint is safe iff the configuration is written or already names SMC (else witness c),
-    and the proposal is written or the file already holds the in-memory one (else the stale `saved_flow` flag).
-    A run that writes no checkpoint (importance sampler, interrupted before the first checkpoint, no proposal) is safe
-    iff the file holds no checkpoint or the run leaves its configuration (witness b) and proposal as they are. -/
+/-- `sample_posterior`.  The proposal in memory is written by every run, hence:
+    a run that writes a checkpoint is safe iff the configuration is written or already names SMC (else witness c);
+    a run that writes no checkpoint (importance sampler, interrupted before the first checkpoint, no proposal) is safe
+    iff the file holds no checkpoint, or the run leaves its configuration (config off or sampler SMC, else witness b)
+    and its proposal (none in memory, or the same one, else witness d) as they are. -/
 def okSample (s : Sess) (k : SamplerKind) (path : Option Nat) (c : Bool) (n : Nat) : Bool :=
   match target s path with
   | none => true
   | some (p, saveCfg) =>
     if writesCkpt (effSampler s k) c n && s.memFlow.isSome then
-      (saveCfg || (getFile s.files p).cfgSampler == some .smc) &&
-      (!topSavedFlow s || (getFile s.files p).flow == s.memFlow)
+      saveCfg || (getFile s.files p).cfgSampler == some .smc
     else
       (getFile s.files p).ckpt.isNone ||
         ((!saveCfg || effSampler s k == .smc) &&
-         (s.memFlow.isNone || topSavedFlow s || s.memFlow == (getFile s.files p).flow))
+         (s.memFlow.isNone || s.memFlow == (getFile s.files p).flow))
 
 def okStep (s : Sess) : SOp → Bool
   | .fit p o => okFit s p o
@@ -550,12 +614,11 @@ theorem srun_cons (s : Sess) (op : SOp) (rest : List SOp) : srun s (op :: rest) 
 
 /-! ### safe steps keep every file good -/
 
-theorem sampleFile_good (f : CkFile) (saveCfg : Bool) (k' : SamplerKind) (sf : Bool) (mem : Option Nat) (c : Bool) (n : Nat)
+theorem sampleFile_good (f : CkFile) (saveCfg : Bool) (k' : SamplerKind) (mem : Option Nat) (c : Bool) (n : Nat)
     (hf : GoodFile f)
-    (hg : (if writesCkpt k' c n && mem.isSome then
-             (saveCfg || f.cfgSampler == some .smc) && (!sf || f.flow == mem)
-           else f.ckpt.isNone || ((!saveCfg || k' == .smc) && (mem.isNone || sf || mem == f.flow))) = true) :
-    GoodFile (sampleFile f saveCfg k' (mem.isSome && !sf) mem (writesCkpt k' c n)) := by
+    (hg : (if writesCkpt k' c n && mem.isSome then saveCfg || f.cfgSampler == some .smc
+           else f.ckpt.isNone || ((!saveCfg || k' == .smc) && (mem.isNone || mem == f.flow))) = true) :
+    GoodFile (sampleFile f saveCfg k' mem.isSome mem (writesCkpt k' c n)) := by
   intro v k hck
   have hsmc : writesCkpt k' c n = true → k' = .smc := by
     cases k' <;> simp [writesCkpt]
@@ -566,7 +629,7 @@ theorem sampleFile_good (f : CkFile) (saveCfg : Bool) (k' : SamplerKind) (sf : B
     obtain ⟨h1, h2, h3⟩ := hf v k hk0
     simp only at h1 h2 h3
     subst h1 h2 h3 hk0
-    cases mem <;> cases saveCfg <;> cases sf <;> simp_all [sampleFile]
+    cases mem <;> cases saveCfg <;> simp_all [sampleFile]
   · have hk' := hsmc hw
     subst hk'
     cases mem with
@@ -575,11 +638,11 @@ theorem sampleFile_good (f : CkFile) (saveCfg : Bool) (k' : SamplerKind) (sf : B
       obtain ⟨h1, h2, h3⟩ := hf v k hk0
       simp only at h1 h2 h3
       subst h1 h2 h3 hk0
-      cases saveCfg <;> cases sf <;> simp_all [sampleFile]
+      cases saveCfg <;> simp_all [sampleFile]
     | some m =>
       have : m = v ∧ smc = k := by simpa [sampleFile, hw] using hck
       obtain ⟨rfl, rfl⟩ := this
-      cases saveCfg <;> cases sf <;> simp_all [sampleFile]
+      cases saveCfg <;> simp_all [sampleFile]
 
 theorem fitFile_good (f : CkFile) (wc : Bool) (last : Option SamplerKind) (o : Bool) (v : Nat)
     (hf : GoodFile f)
@@ -613,7 +676,7 @@ theorem good_sample (s : Sess) (k : SamplerKind) (path : Option Nat) (c : Bool) 
     unfold okSample at hg
     rw [ht] at hg
     rw [(stepSample_target s k path c n p saveCfg ht).1]
-    exact good_setFile _ hI _ _ (sampleFile_good _ _ _ _ _ _ _ (good_getFile _ hI p) hg)
+    exact good_setFile _ hI _ _ (sampleFile_good _ _ _ _ _ _ (good_getFile _ hI p) hg)
 
 theorem resume_files (s s' : Sess) (p : Nat) (h : stepResume s p = some s') :
     s'.files = s.files ∧ s'.dstack = [{ path := p, saveConfig := false }] ∧ s'.nextVersion = s.nextVersion := by
@@ -764,12 +827,11 @@ theorem fitFile_bad (f : CkFile) (wc : Bool) (last : Option SamplerKind) (o : Bo
     have hne : ¬ N = v0 := by omega
     cases o <;> cases wc <;> simp_all [fitFile, Consistent]
 
-theorem sampleFile_bad (f : CkFile) (saveCfg : Bool) (k' : SamplerKind) (sf : Bool) (mem : Option Nat) (c : Bool) (n : Nat)
+theorem sampleFile_bad (f : CkFile) (saveCfg : Bool) (k' : SamplerKind) (mem : Option Nat) (c : Bool) (n : Nat)
     (hf : GoodFile f)
-    (hg : (if writesCkpt k' c n && mem.isSome then
-             (saveCfg || f.cfgSampler == some .smc) && (!sf || f.flow == mem)
-           else f.ckpt.isNone || ((!saveCfg || k' == .smc) && (mem.isNone || sf || mem == f.flow))) = false) :
-    Consistent (sampleFile f saveCfg k' (mem.isSome && !sf) mem (writesCkpt k' c n)) = false := by
+    (hg : (if writesCkpt k' c n && mem.isSome then saveCfg || f.cfgSampler == some .smc
+           else f.ckpt.isNone || ((!saveCfg || k' == .smc) && (mem.isNone || mem == f.flow))) = false) :
+    Consistent (sampleFile f saveCfg k' mem.isSome mem (writesCkpt k' c n)) = false := by
   have hsmc : writesCkpt k' c n = true → k' = .smc := by
     cases k' <;> simp [writesCkpt]
   obtain ⟨ff, fh, fc, fk⟩ := f
@@ -782,7 +844,7 @@ theorem sampleFile_bad (f : CkFile) (saveCfg : Bool) (k' : SamplerKind) (sf : Bo
       obtain ⟨h1, h2, h3⟩ := hf v0 k0 rfl
       simp only at h1 h2 h3
       subst h1 h2 h3
-      cases mem <;> cases saveCfg <;> cases sf <;> cases k' <;> simp_all [sampleFile, Consistent]
+      cases mem <;> cases saveCfg <;> cases k' <;> simp_all [sampleFile, Consistent]
   · have hk' := hsmc hw
     subst hk'
     cases mem with
@@ -795,10 +857,9 @@ theorem sampleFile_bad (f : CkFile) (saveCfg : Bool) (k' : SamplerKind) (sf : Bo
         obtain ⟨h1, h2, h3⟩ := hf v0 k0 rfl
         simp only at h1 h2 h3
         subst h1 h2 h3
-        cases saveCfg <;> cases sf <;> simp_all
+        cases saveCfg <;> simp_all
     | some m =>
-      cases saveCfg <;> cases sf <;> simp_all [sampleFile, Consistent] <;>
-        (intro h1 h2; exact hg h2 h1)
+      cases saveCfg <;> simp_all [sampleFile, Consistent]
 
 /-- an excluded step leaves an inconsistent file behind -/
 theorem unsafe_breaks (s : Sess) (op : SOp) (hI : AllGood s.files) (hF : Fresh s) (hg : okStep s op = false) :
@@ -821,7 +882,7 @@ theorem unsafe_breaks (s : Sess) (op : SOp) (hI : AllGood s.files) (hF : Fresh s
       obtain ⟨p, saveCfg⟩ := ps
       rw [ht] at hg
       exact allConsistent_setFile_false _ _ _ _ (stepSample_target s k path c n p saveCfg ht).1
-        (sampleFile_bad _ _ _ _ _ _ _ (good_getFile _ hI p) hg)
+        (sampleFile_bad _ _ _ _ _ _ (good_getFile _ hI p) hg)
   | enter p sc => simp [okStep] at hg
   | exit => simp [okStep] at hg
   | resume p => simp [okStep] at hg
@@ -851,247 +912,41 @@ theorem safe_iff_consistent_throughout (ops : List SOp) : Safe ops ↔ Consisten
   unfold Safe
   rw [safeFrom_eq ops {} (by intro pf hpf; simp at hpf) fresh_init]
 
-/-! ### a discipline on the context flags under which the proposal in the file need not be inspected
-
-`Safe` lets a checkpoint-writing run skip the proposal (flag `saved_flow` of the context already set) only when the
-file holds the in-memory proposal.  Two rules about the control state guarantee this: do not refit inside a context
-that has already saved its proposal, and inside a context sample to the context's own file. -/
-
-def topPathIs (s : Sess) (p : Nat) : Bool :=
-  match topDflt s with
-  | some d => d.path == p
-  | none => true
-
-def okFitD (s : Sess) (path : Option Nat) (o : Bool) : Bool :=
-  s.dstack.all (fun d => !d.savedFlow) && okFit s path o
-
-def okSampleD (s : Sess) (k : SamplerKind) (path : Option Nat) (c : Bool) (n : Nat) : Bool :=
-  match target s path with
-  | none => true
-  | some (p, saveCfg) =>
-    topPathIs s p &&
-    (if writesCkpt (effSampler s k) c n && s.memFlow.isSome then
-       saveCfg || (getFile s.files p).cfgSampler == some .smc
-     else
-       (getFile s.files p).ckpt.isNone ||
-         ((!saveCfg || effSampler s k == .smc) &&
-          (s.memFlow.isNone || topSavedFlow s || s.memFlow == (getFile s.files p).flow)))
-
-def okStepD (s : Sess) : SOp → Bool
-  | .fit p o => okFitD s p o
-  | .sample k p c n => okSampleD s k p c n
-  | .enter _ _ => true
-  | .exit => true
-  | .resume _ => true
-
-def SafeFromD (s : Sess) : List SOp → Bool
-  | [] => true
-  | op :: rest => okStepD s op && SafeFromD (next s op) rest
-
-def Disciplined (ops : List SOp) : Prop := SafeFromD {} ops = true
-
-instance (ops : List SOp) : Decidable (Disciplined ops) := by unfold Disciplined; infer_instance
-
-/-- a context that has saved its proposal points to a file holding the in-memory proposal -/
-def Saved (s : Sess) : Prop :=
-  ∀ d ∈ s.dstack, d.savedFlow = true → (getFile s.files d.path).flow = s.memFlow
-
-theorem saved_top (s : Sess) (p : Nat) (hS : Saved s) (htop : topPathIs s p = true) (hsf : topSavedFlow s = true) :
-    (getFile s.files p).flow = s.memFlow := by
-  cases hds : s.dstack with
-  | nil => simp [topSavedFlow, topDflt, hds] at hsf
-  | cons d0 rest =>
-    simp only [topSavedFlow, topDflt, hds, List.head?_cons] at hsf
-    simp only [topPathIs, topDflt, hds, List.head?_cons, beq_iff_eq] at htop
-    rw [← htop]
-    exact hS d0 (by simp [hds]) hsf
-
-theorem okD_imp_ok (s : Sess) (op : SOp) (hS : Saved s) (hg : okStepD s op = true) : okStep s op = true := by
-  cases op with
-  | fit p o =>
-    simp only [okStepD, okFitD, Bool.and_eq_true] at hg
-    exact hg.2
-  | sample k path c n =>
-    simp only [okStep, okStepD] at hg ⊢
-    unfold okSampleD at hg
-    unfold okSample
-    cases ht : target s path with
-    | none => rfl
-    | some ps =>
-      obtain ⟨p, saveCfg⟩ := ps
-      rw [ht] at hg
-      obtain ⟨htop, hg⟩ := (Bool.and_eq_true _ _).mp hg
-      simp only
-      split
-      · rename_i hc
-        rw [if_pos hc] at hg
-        rw [hg, Bool.true_and]
-        cases hsf : topSavedFlow s
-        · rfl
-        · simp [saved_top s p hS htop hsf]
-      · rename_i hc
-        rw [if_neg hc] at hg
-        exact hg
-  | enter p sc => rfl
-  | exit => rfl
-  | resume p => rfl
-
-theorem saved_fit (s : Sess) (path : Option Nat) (o : Bool) (hg : okFitD s path o = true) :
-    Saved (stepFit s path o) := by
-  simp only [okFitD, Bool.and_eq_true, List.all_eq_true, Bool.not_eq_true'] at hg
-  obtain ⟨hall, _⟩ := hg
-  intro d hd hs
-  exfalso
-  have hdd : (stepFit s path o).dstack = s.dstack ∨
-      ∃ b, (stepFit s path o).dstack = markTop s.dstack b false := by
-    cases ht : target s path with
-    | none => exact Or.inl (stepFit_noTarget s path o ht).2.1
-    | some ps => exact Or.inr ⟨_, (stepFit_target s path o ps.1 ps.2 ht).2.1⟩
-  rcases hdd with h2 | ⟨b, h2⟩
-  · rw [h2] at hd
-    rw [hall d hd] at hs; exact absurd hs (by simp)
-  · rw [h2] at hd
-    cases hds : s.dstack with
-    | nil => simp [hds, markTop] at hd
-    | cons d0 rest =>
-      simp only [hds, markTop, List.mem_cons] at hd
-      rcases hd with rfl | hd
-      · simp only [Bool.or_false] at hs
-        rw [hall d0 (by simp [hds])] at hs; exact absurd hs (by simp)
-      · rw [hall d (by simp [hds, hd])] at hs; exact absurd hs (by simp)
-
-theorem saved_sample (s : Sess) (k : SamplerKind) (path : Option Nat) (c : Bool) (n : Nat) (hS : Saved s)
-    (hg : okSampleD s k path c n = true) : Saved (stepSample s k path c n) := by
-  cases ht : target s path with
-  | none =>
-    obtain ⟨h1, h2, h3⟩ := stepSample_noTarget s k path c n ht
-    intro d hd hs
-    rw [h1, h3]; rw [h2] at hd
-    exact hS d hd hs
-  | some ps =>
-    obtain ⟨p, saveCfg⟩ := ps
-    obtain ⟨h1, h2, h3⟩ := stepSample_target s k path c n p saveCfg ht
-    unfold okSampleD at hg
-    rw [ht] at hg
-    obtain ⟨htop, _⟩ := (Bool.and_eq_true _ _).mp hg
-    intro d hd hs
-    rw [h1, h3]
-    rw [h2] at hd
-    -- either the old invariant applies to `d`, or `d` is the top context and the proposal has just been written
-    have key : (getFile s.files d.path).flow = s.memFlow ∨
-        (d.path = p ∧ (s.memFlow.isSome && !topSavedFlow s) = true) := by
-      cases hds : s.dstack with
-      | nil => simp [hds, markTop] at hd
-      | cons d0 rest =>
-        simp only [hds, markTop, List.mem_cons] at hd
-        rcases hd with rfl | hd
-        · simp only [Bool.or_eq_true] at hs
-          simp only [topPathIs, topDflt, hds, List.head?_cons, beq_iff_eq] at htop
-          rcases hs with hs | hs
-          · exact Or.inl (hS d0 (by simp [hds]) hs)
-          · exact Or.inr ⟨htop, hs⟩
-        · exact Or.inl (hS d (by simp [hds, hd]) hs)
-    by_cases hp : d.path = p
-    · rw [hp, getFile_setFile_same]
-      rcases key with key | ⟨_, key⟩
-      · rw [hp] at key
-        simp only [sampleFile]
-        split
-        · rfl
-        · exact key
-      · simp [sampleFile, key]
-    · rw [getFile_setFile_other _ _ _ _ hp]
-      rcases key with key | ⟨key, _⟩
-      · exact key
-      · exact absurd key hp
-
-theorem saved_next (s : Sess) (op : SOp) (hS : Saved s) (hg : okStepD s op = true) : Saved (next s op) := by
-  cases op with
-  | fit p o => exact saved_fit s p o hg
-  | sample k p c n => exact saved_sample s k p c n hS hg
-  | enter p sc =>
-    intro d hd hs
-    simp only [next, sstep, Option.getD_some, List.mem_cons] at hd
-    rcases hd with rfl | hd
-    · simp at hs
-    · exact hS d hd hs
-  | exit =>
-    intro d hd hs
-    simp only [next, sstep, Option.getD_some] at hd
-    exact hS d (List.mem_of_mem_tail hd) hs
-  | resume p =>
-    simp only [next, sstep]
-    cases hr : stepResume s p with
-    | none => exact hS
-    | some s' =>
-      intro d hd hs
-      simp only [Option.getD_some] at hd
-      rw [(resume_files s s' p hr).2.1] at hd
-      simp only [List.mem_singleton] at hd
-      subst hd
-      simp at hs
-
-theorem safeFromD_safeFrom (ops : List SOp) : ∀ s, Saved s → SafeFromD s ops = true → SafeFrom s ops = true := by
-  induction ops with
-  | nil => intro s _ _; rfl
-  | cons op rest ih =>
-    intro s hS h
-    simp only [SafeFromD, Bool.and_eq_true] at h
-    simp only [SafeFrom, Bool.and_eq_true]
-    exact ⟨okD_imp_ok s op hS h.1, ih _ (saved_next s op hS h.1) h.2⟩
-
-theorem disciplined_safe (ops : List SOp) (h : Disciplined ops) : Safe ops :=
-  safeFromD_safeFrom ops {} (by intro d hd; simp at hd) h
-
 /-! ### a purely syntactic sub-language: SMC-only sessions, contexts with `save_config=True`
 
-Outside a context: `fit` without a path, `fit(path, overwrite=False)`, SMC runs that reach their first checkpoint.
-Inside `auto_checkpoint(p, save_config=True)`: first the fits (no overwrite), then SMC runs to the context's file
-(path omitted or equal to `p`) that reach their first checkpoint, then `exit`.  Refitting and sampling again to the
-same file, in or out of a new context, is allowed any number of times. -/
+Fits without overwrite (with `overwrite` arbitrary when no file is targeted), SMC runs that reach their first
+checkpoint, to any file, inside or outside contexts; contexts `auto_checkpoint(p, save_config=True)`, nested at will.
+Refitting and sampling again to the same file, inside one context or across contexts, is allowed any number of times.
+The only state tracked is the number of open contexts. -/
 
-inductive Phase
-  | out
-  | fitting (p : Nat)
-  | sampling (p : Nat)
-  deriving DecidableEq, Repr
+def synStep (depth : Nat) : SOp → Option Nat
+  | .fit none o => if depth == 0 || !o then some depth else none
+  | .fit (some _) o => if !o then some depth else none
+  | .sample .smc none c n => if depth == 0 || writesCkpt .smc c n then some depth else none
+  | .sample .smc (some _) c n => if writesCkpt .smc c n then some depth else none
+  | .sample .importance _ _ _ => none
+  | .enter _ sc => if sc then some (depth + 1) else none
+  | .exit => some (depth - 1)
+  | .resume _ => none
 
-def synStep : Phase → SOp → Option Phase
-  | .out, .fit none _ => some .out
-  | .out, .fit (some _) false => some .out
-  | .out, .sample .smc none _ _ => some .out
-  | .out, .sample .smc (some _) c n => if writesCkpt .smc c n then some .out else none
-  | .out, .enter p true => some (.fitting p)
-  | .fitting p, .fit none false => some (.fitting p)
-  | .fitting p, .fit (some _) false => some (.fitting p)
-  | .fitting p, .sample .smc none c n => if writesCkpt .smc c n then some (.sampling p) else none
-  | .fitting p, .sample .smc (some q) c n => if writesCkpt .smc c n && q == p then some (.sampling p) else none
-  | .fitting _, .exit => some .out
-  | .sampling p, .sample .smc none c n => if writesCkpt .smc c n then some (.sampling p) else none
-  | .sampling p, .sample .smc (some q) c n => if writesCkpt .smc c n && q == p then some (.sampling p) else none
-  | .sampling _, .exit => some .out
-  | _, _ => none
-
-def SynSafeFrom : Phase → List SOp → Bool
+def SynSafeFrom : Nat → List SOp → Bool
   | _, [] => true
-  | ph, op :: rest =>
-    match synStep ph op with
-    | some ph' => SynSafeFrom ph' rest
+  | depth, op :: rest =>
+    match synStep depth op with
+    | some depth' => SynSafeFrom depth' rest
     | none => false
 
-def SynSafe (ops : List SOp) : Prop := SynSafeFrom .out ops = true
+def SynSafe (ops : List SOp) : Prop := SynSafeFrom 0 ops = true
 
 instance (ops : List SOp) : Decidable (SynSafe ops) := by unfold SynSafe; infer_instance
 
 def NoCkpt (fs : List (Nat × CkFile)) : Prop := ∀ pf ∈ fs, pf.2.ckpt = none
 
-structure Link (ph : Phase) (s : Sess) : Prop where
+structure Link (depth : Nat) (s : Sess) : Prop where
   noResume : s.resumeSampler = none
   smcOnly : s.lastSampler = some .smc ∨ NoCkpt s.files
-  stack : match ph with
-    | .out => s.dstack = []
-    | .fitting p => ∃ d, s.dstack = [d] ∧ d.path = p ∧ d.saveConfig = true ∧ d.savedFlow = false
-    | .sampling p => ∃ d, s.dstack = [d] ∧ d.path = p ∧ d.saveConfig = true
+  depth : s.dstack.length = depth
+  cfgOn : ∀ d ∈ s.dstack, d.saveConfig = true
 
 theorem noCkpt_getFile (fs : List (Nat × CkFile)) (h : NoCkpt fs) (p : Nat) : (getFile fs p).ckpt = none := by
   unfold getFile
@@ -1124,6 +979,20 @@ theorem okFit_smcOnly (s : Sess) (path : Option Nat) (h : s.lastSampler = some .
     · simp [h]
     · simp [noCkpt_getFile _ h]
 
+theorem markTop_length (ds : List Dflt) (a b : Bool) : (markTop ds a b).length = ds.length := by
+  cases ds <;> rfl
+
+theorem markTop_cfgOn (ds : List Dflt) (a b : Bool) (h : ∀ d ∈ ds, d.saveConfig = true) :
+    ∀ d ∈ markTop ds a b, d.saveConfig = true := by
+  cases ds with
+  | nil => intro d hd; simp [markTop] at hd
+  | cons d0 rest =>
+    intro d hd
+    simp only [markTop, List.mem_cons] at hd
+    rcases hd with rfl | hd
+    · exact h d0 (by simp)
+    · exact h d (by simp [hd])
+
 theorem fit_dstack (s : Sess) (path : Option Nat) (o : Bool) :
     (stepFit s path o).dstack = s.dstack ∨ ∃ b, (stepFit s path o).dstack = markTop s.dstack b false := by
   cases ht : target s path with
@@ -1136,20 +1005,30 @@ theorem sample_dstack (s : Sess) (k : SamplerKind) (path : Option Nat) (c : Bool
   | none => exact Or.inl (stepSample_noTarget s k path c n ht).2.1
   | some ps => exact Or.inr ⟨_, _, (stepSample_target s k path c n ps.1 ps.2 ht).2.1⟩
 
-/-- a `fit` without overwrite in phase `out`/`fitting` is disciplined and keeps the phase -/
-theorem link_fit (ph : Phase) (s : Sess) (path : Option Nat) (o : Bool) (hL : Link ph s)
-    (hph : ∀ p, ph ≠ .sampling p) (ho : o = false ∨ target s path = none) :
-    okFitD s path o = true ∧ Link ph (stepFit s path o) := by
-  obtain ⟨hn, hl, hr⟩ := stepFit_other s path o
-  have hflags : s.dstack.all (fun d => !d.savedFlow) = true := by
-    have := hL.stack
-    cases ph with
-    | out => simp only at this; simp [this]
-    | fitting p => obtain ⟨d, h1, _, _, h4⟩ := this; simp [h1, h4]
-    | sampling p => exact absurd rfl (hph p)
-  refine ⟨?_, ?_, ?_, ?_⟩
-  · simp only [okFitD, hflags, Bool.true_and]
-    rcases ho with rfl | ho
+theorem target_none_of_depth0 (s : Sess) (h : s.dstack.length = 0) : target s none = none := by
+  have : s.dstack = [] := List.eq_nil_of_length_eq_zero h
+  simp [target, topDflt, this]
+
+/-- with every open context at `save_config=True` the configuration is always written -/
+theorem target_cfgOn (s : Sess) (path : Option Nat) (p : Nat) (sc : Bool) (h : ∀ d ∈ s.dstack, d.saveConfig = true)
+    (ht : target s path = some (p, sc)) : sc = true := by
+  cases path with
+  | some q =>
+    simp only [target, Option.some.injEq, Prod.mk.injEq] at ht
+    exact ht.2.symm
+  | none =>
+    cases hd : s.dstack with
+    | nil => simp [target, topDflt, hd] at ht
+    | cons d rest =>
+      simp only [target, topDflt, hd, List.head?_cons, Option.some.injEq, Prod.mk.injEq] at ht
+      rw [← ht.2]; exact h d (by simp [hd])
+
+theorem link_fit (depth : Nat) (s : Sess) (path : Option Nat) (o : Bool) (hL : Link depth s)
+    (ho : o = false ∨ target s path = none) :
+    okFit s path o = true ∧ Link depth (stepFit s path o) := by
+  obtain ⟨_, hl, hr⟩ := stepFit_other s path o
+  refine ⟨?_, ?_, ?_, ?_, ?_⟩
+  · rcases ho with rfl | ho
     · exact okFit_smcOnly s path hL.smcOnly
     · simp [okFit, ho]
   · rw [hr]; exact hL.noResume
@@ -1157,30 +1036,19 @@ theorem link_fit (ph : Phase) (s : Sess) (path : Option Nat) (o : Bool) (hL : Li
     rcases hL.smcOnly with h | h
     · exact Or.inl h
     · exact Or.inr (noCkpt_fit s path o h)
-  · have := hL.stack
-    cases ph with
-    | out =>
-      simp only at this ⊢
-      rcases fit_dstack s path o with h | ⟨b, h⟩ <;> rw [h, this] <;> rfl
-    | fitting p =>
-      obtain ⟨d, h1, h2, h3, h4⟩ := this
-      rcases fit_dstack s path o with h | ⟨b, h⟩
-      · exact ⟨d, by rw [h, h1], h2, h3, h4⟩
-      · exact ⟨{ d with savedConfig := d.savedConfig || b, savedFlow := d.savedFlow || false },
-          by rw [h, h1]; rfl, h2, h3, by simp [h4]⟩
-    | sampling p => exact absurd rfl (hph p)
+  · rcases fit_dstack s path o with h | ⟨b, h⟩
+    · rw [h]; exact hL.depth
+    · rw [h, markTop_length]; exact hL.depth
+  · rcases fit_dstack s path o with h | ⟨b, h⟩
+    · rw [h]; exact hL.cfgOn
+    · rw [h]; exact markTop_cfgOn _ _ _ hL.cfgOn
 
-/-- an SMC run that reaches its first checkpoint and goes to the context's file (or to any file outside a context) is
-    disciplined; afterwards the session is in the sampling phase of that context -/
-theorem link_sample (ph : Phase) (s : Sess) (path : Option Nat) (c : Bool) (n : Nat) (hL : Link ph s)
-    (hw : writesCkpt .smc c n = true ∨ target s path = none)
-    (hpath : ∀ p, (ph = .fitting p ∨ ph = .sampling p) → path = none ∨ path = some p) :
-    okSampleD s .smc path c n = true ∧
-      Link (match ph with | .out => .out | .fitting p => .sampling p | .sampling p => .sampling p)
-        (stepSample s .smc path c n) := by
-  obtain ⟨hn, hl, hr⟩ := stepSample_other s .smc path c n
-  refine ⟨?_, ?_, ?_, ?_⟩
-  · unfold okSampleD
+theorem link_sample (depth : Nat) (s : Sess) (path : Option Nat) (c : Bool) (n : Nat) (hL : Link depth s)
+    (hw : writesCkpt .smc c n = true ∨ target s path = none) :
+    okSample s .smc path c n = true ∧ Link depth (stepSample s .smc path c n) := by
+  obtain ⟨_, hl, hr⟩ := stepSample_other s .smc path c n
+  refine ⟨?_, ?_, ?_, ?_, ?_⟩
+  · unfold okSample
     cases ht : target s path with
     | none => rfl
     | some ps =>
@@ -1189,204 +1057,109 @@ theorem link_sample (ph : Phase) (s : Sess) (path : Option Nat) (c : Bool) (n : 
         rcases hw with h | h
         · exact h
         · rw [ht] at h; exact absurd h (by simp)
-      have hsc_top : topPathIs s p = true ∧ saveCfg = true := by
-        have := hL.stack
-        cases ph with
-        | out =>
-          simp only at this
-          cases path with
-          | none => simp [target, topDflt, this] at ht
-          | some q =>
-            simp only [target, Option.some.injEq, Prod.mk.injEq] at ht
-            exact ⟨by simp [topPathIs, topDflt, this], ht.2.symm⟩
-        | fitting p0 =>
-          obtain ⟨d, h1, h2, h3, _⟩ := this
-          rcases hpath p0 (Or.inl rfl) with rfl | rfl
-          · simp only [target, topDflt, h1, List.head?_cons, Option.some.injEq, Prod.mk.injEq] at ht
-            exact ⟨by simp [topPathIs, topDflt, h1, ht.1], by rw [← ht.2, h3]⟩
-          · simp only [target, Option.some.injEq, Prod.mk.injEq] at ht
-            exact ⟨by simp [topPathIs, topDflt, h1, h2, ht.1], ht.2.symm⟩
-        | sampling p0 =>
-          obtain ⟨d, h1, h2, h3⟩ := this
-          rcases hpath p0 (Or.inr rfl) with rfl | rfl
-          · simp only [target, topDflt, h1, List.head?_cons, Option.some.injEq, Prod.mk.injEq] at ht
-            exact ⟨by simp [topPathIs, topDflt, h1, ht.1], by rw [← ht.2, h3]⟩
-          · simp only [target, Option.some.injEq, Prod.mk.injEq] at ht
-            exact ⟨by simp [topPathIs, topDflt, h1, h2, ht.1], ht.2.symm⟩
-      obtain ⟨htop, rfl⟩ := hsc_top
-      simp only [htop, effSampler_smc, hw', Bool.true_and, Bool.true_or]
+      have hsc := target_cfgOn s path p saveCfg hL.cfgOn ht
+      subst hsc
+      simp only [effSampler_smc, hw', Bool.true_and, Bool.true_or]
       cases hm : s.memFlow <;> simp
   · rw [hr]; exact hL.noResume
   · rw [hl, effSampler_smc]; exact Or.inl rfl
-  · have := hL.stack
-    cases ph with
-    | out =>
-      simp only at this ⊢
-      rcases sample_dstack s .smc path c n with h | ⟨a, b, h⟩ <;> rw [h, this] <;> rfl
-    | fitting p =>
-      obtain ⟨d, h1, h2, h3, _⟩ := this
-      rcases sample_dstack s .smc path c n with h | ⟨a, b, h⟩
-      · exact ⟨d, by rw [h, h1], h2, h3⟩
-      · exact ⟨{ d with savedConfig := d.savedConfig || a, savedFlow := d.savedFlow || b },
-          by rw [h, h1]; rfl, h2, h3⟩
-    | sampling p =>
-      obtain ⟨d, h1, h2, h3⟩ := this
-      rcases sample_dstack s .smc path c n with h | ⟨a, b, h⟩
-      · exact ⟨d, by rw [h, h1], h2, h3⟩
-      · exact ⟨{ d with savedConfig := d.savedConfig || a, savedFlow := d.savedFlow || b },
-          by rw [h, h1]; rfl, h2, h3⟩
+  · rcases sample_dstack s .smc path c n with h | ⟨a, b, h⟩
+    · rw [h]; exact hL.depth
+    · rw [h, markTop_length]; exact hL.depth
+  · rcases sample_dstack s .smc path c n with h | ⟨a, b, h⟩
+    · rw [h]; exact hL.cfgOn
+    · rw [h]; exact markTop_cfgOn _ _ _ hL.cfgOn
 
-theorem target_none_of_nil (s : Sess) (h : s.dstack = []) : target s none = none := by
-  simp [target, topDflt, h]
-
-theorem link_enter (s : Sess) (p : Nat) (hL : Link .out s) :
-    Link (.fitting p) (next s (.enter p true)) := by
-  refine ⟨hL.noResume, hL.smcOnly, ?_⟩
-  have := hL.stack
-  simp only at this
-  exact ⟨{ path := p, saveConfig := true }, by simp [next, sstep, this], rfl, rfl, rfl⟩
-
-theorem link_exit (ph : Phase) (s : Sess) (hL : Link ph s) (hph : ph ≠ .out) : Link .out (next s .exit) := by
-  refine ⟨hL.noResume, hL.smcOnly, ?_⟩
-  have := hL.stack
-  cases ph with
-  | out => exact absurd rfl hph
-  | fitting p => obtain ⟨d, h1, _⟩ := this; simp [next, sstep, h1]
-  | sampling p => obtain ⟨d, h1, _⟩ := this; simp [next, sstep, h1]
-
-theorem link_step (ph ph' : Phase) (s : Sess) (op : SOp) (hL : Link ph s) (h : synStep ph op = some ph') :
-    okStepD s op = true ∧ Link ph' (next s op) := by
-  cases ph with
-  | out =>
-    have hnil : s.dstack = [] := hL.stack
-    cases op with
-    | fit path o =>
+theorem link_step (depth depth' : Nat) (s : Sess) (op : SOp) (hL : Link depth s)
+    (h : synStep depth op = some depth') : okStep s op = true ∧ Link depth' (next s op) := by
+  cases op with
+  | fit path o =>
+    cases path with
+    | none =>
+      simp only [synStep] at h
+      split at h
+      · rename_i hc
+        simp only [Option.some.injEq] at h; subst h
+        simp only [Bool.or_eq_true, beq_iff_eq, Bool.not_eq_true'] at hc
+        refine link_fit depth s none o hL ?_
+        rcases hc with hc | hc
+        · exact Or.inr (target_none_of_depth0 s (by rw [hL.depth, hc]))
+        · exact Or.inl hc
+      · simp at h
+    | some q =>
+      simp only [synStep] at h
+      split at h
+      · rename_i hc
+        simp only [Option.some.injEq] at h; subst h
+        simp only [Bool.not_eq_true'] at hc
+        exact link_fit depth s (some q) o hL (Or.inl hc)
+      · simp at h
+  | sample k path c n =>
+    cases k with
+    | importance => simp [synStep] at h
+    | smc =>
       cases path with
       | none =>
-        simp only [synStep, Option.some.injEq] at h; subst h
-        exact link_fit .out s none o hL (by intro p; simp) (Or.inr (target_none_of_nil s hnil))
+        simp only [synStep] at h
+        split at h
+        · rename_i hc
+          simp only [Option.some.injEq] at h; subst h
+          simp only [Bool.or_eq_true, beq_iff_eq] at hc
+          refine link_sample depth s none c n hL ?_
+          rcases hc with hc | hc
+          · exact Or.inr (target_none_of_depth0 s (by rw [hL.depth, hc]))
+          · exact Or.inl hc
+        · simp at h
       | some q =>
-        cases o with
-        | true => simp [synStep] at h
-        | false =>
-          simp only [synStep, Option.some.injEq] at h; subst h
-          exact link_fit .out s (some q) false hL (by intro p; simp) (Or.inl rfl)
-    | sample k path c n =>
-      cases k with
-      | importance => simp [synStep] at h
-      | smc =>
-        cases path with
-        | none =>
-          simp only [synStep, Option.some.injEq] at h; subst h
-          exact link_sample .out s none c n hL (Or.inr (target_none_of_nil s hnil)) (by intro p hp; simp at hp)
-        | some q =>
-          simp only [synStep] at h
-          split at h
-          · rename_i hw
-            simp only [Option.some.injEq] at h; subst h
-            exact link_sample .out s (some q) c n hL (Or.inl hw) (by intro p hp; simp at hp)
-          · simp at h
-    | enter p sc =>
-      cases sc with
-      | false => simp [synStep] at h
-      | true =>
-        simp only [synStep, Option.some.injEq] at h; subst h
-        exact ⟨rfl, link_enter s p hL⟩
-    | exit => simp [synStep] at h
-    | resume p => simp [synStep] at h
-  | fitting p =>
-    cases op with
-    | fit path o =>
-      cases o with
-      | true => cases path <;> simp [synStep] at h
-      | false =>
-        have : ph' = .fitting p := by cases path <;> (simp only [synStep, Option.some.injEq] at h; exact h.symm)
-        subst this
-        exact link_fit (.fitting p) s path false hL (by intro q; simp) (Or.inl rfl)
-    | sample k path c n =>
-      cases k with
-      | importance => cases path <;> simp [synStep] at h
-      | smc =>
-        cases path with
-        | none =>
-          simp only [synStep] at h
-          split at h
-          · rename_i hw
-            simp only [Option.some.injEq] at h; subst h
-            exact link_sample (.fitting p) s none c n hL (Or.inl hw) (by intro q _; exact Or.inl rfl)
-          · simp at h
-        | some q =>
-          simp only [synStep] at h
-          split at h
-          · rename_i hw
-            simp only [Bool.and_eq_true, beq_iff_eq] at hw
-            simp only [Option.some.injEq] at h; subst h
-            obtain ⟨hw, rfl⟩ := hw
-            refine link_sample (.fitting q) s (some q) c n hL (Or.inl hw) ?_
-            intro r hr
-            simp only [Phase.fitting.injEq, reduceCtorEq, or_false] at hr
-            exact Or.inr (by rw [hr])
-          · simp at h
-    | enter q sc => simp [synStep] at h
-    | exit =>
-      simp only [synStep, Option.some.injEq] at h; subst h
-      exact ⟨rfl, link_exit _ s hL (by simp)⟩
-    | resume q => simp [synStep] at h
-  | sampling p =>
-    cases op with
-    | fit path o => simp [synStep] at h
-    | sample k path c n =>
-      cases k with
-      | importance => cases path <;> simp [synStep] at h
-      | smc =>
-        cases path with
-        | none =>
-          simp only [synStep] at h
-          split at h
-          · rename_i hw
-            simp only [Option.some.injEq] at h; subst h
-            exact link_sample (.sampling p) s none c n hL (Or.inl hw) (by intro q _; exact Or.inl rfl)
-          · simp at h
-        | some q =>
-          simp only [synStep] at h
-          split at h
-          · rename_i hw
-            simp only [Bool.and_eq_true, beq_iff_eq] at hw
-            simp only [Option.some.injEq] at h; subst h
-            obtain ⟨hw, rfl⟩ := hw
-            refine link_sample (.sampling q) s (some q) c n hL (Or.inl hw) ?_
-            intro r hr
-            simp only [reduceCtorEq, Phase.sampling.injEq, false_or] at hr
-            exact Or.inr (by rw [hr])
-          · simp at h
-    | enter q sc => simp [synStep] at h
-    | exit =>
-      simp only [synStep, Option.some.injEq] at h; subst h
-      exact ⟨rfl, link_exit _ s hL (by simp)⟩
-    | resume q => simp [synStep] at h
+        simp only [synStep] at h
+        split at h
+        · rename_i hc
+          simp only [Option.some.injEq] at h; subst h
+          exact link_sample depth s (some q) c n hL (Or.inl hc)
+        · simp at h
+  | enter p sc =>
+    simp only [synStep] at h
+    split at h
+    · rename_i hc
+      simp only [Option.some.injEq] at h; subst h
+      subst hc
+      refine ⟨rfl, hL.noResume, hL.smcOnly, ?_, ?_⟩
+      · simp [next, sstep, hL.depth]
+      · intro d hd
+        simp only [next, sstep, Option.getD_some, List.mem_cons] at hd
+        rcases hd with rfl | hd
+        · rfl
+        · exact hL.cfgOn d hd
+    · simp at h
+  | exit =>
+    simp only [synStep, Option.some.injEq] at h; subst h
+    refine ⟨rfl, hL.noResume, hL.smcOnly, ?_, ?_⟩
+    · simp [next, sstep, hL.depth]
+    · intro d hd
+      simp only [next, sstep, Option.getD_some] at hd
+      exact hL.cfgOn d (List.mem_of_mem_tail hd)
+  | resume p => simp [synStep] at h
 
-theorem synSafeFrom_disciplined (ops : List SOp) :
-    ∀ ph s, Link ph s → SynSafeFrom ph ops = true → SafeFromD s ops = true := by
+theorem synSafeFrom_safeFrom (ops : List SOp) :
+    ∀ depth s, Link depth s → SynSafeFrom depth ops = true → SafeFrom s ops = true := by
   induction ops with
   | nil => intro _ _ _ _; rfl
   | cons op rest ih =>
-    intro ph s hL h
+    intro depth s hL h
     simp only [SynSafeFrom] at h
-    cases hs : synStep ph op with
+    cases hs : synStep depth op with
     | none => rw [hs] at h; exact absurd h (by simp)
-    | some ph' =>
+    | some depth' =>
       rw [hs] at h
-      obtain ⟨h1, h2⟩ := link_step ph ph' s op hL hs
-      simp only [SafeFromD, Bool.and_eq_true]
-      exact ⟨h1, ih ph' _ h2 h⟩
+      obtain ⟨h1, h2⟩ := link_step depth depth' s op hL hs
+      simp only [SafeFrom, Bool.and_eq_true]
+      exact ⟨h1, ih depth' _ h2 h⟩
 
-theorem link_init : Link .out {} := ⟨rfl, Or.inr (by intro pf h; simp at h), rfl⟩
-
-theorem synSafe_disciplined (ops : List SOp) (h : SynSafe ops) : Disciplined ops :=
-  synSafeFrom_disciplined ops .out {} link_init h
+theorem link_init : Link 0 {} :=
+  ⟨rfl, Or.inr (by intro pf h; simp at h), rfl, by intro d h; simp at h⟩
 
 theorem synSafe_safe (ops : List SOp) (h : SynSafe ops) : Safe ops :=
-  disciplined_safe ops (synSafe_disciplined ops h)
+  synSafeFrom_safeFrom ops 0 {} link_init h
 
 /-- C14 on the syntactic language -/
 theorem consistent_synSafe (ops : List SOp) (h : SynSafe ops) : AllConsistent (srun {} ops) = true :=
@@ -1411,7 +1184,6 @@ theorem resume_then_sample (s s' : Sess) (p : Nat) (k : SamplerKind) (c : Bool) 
       · exact absurd h (by simp)
       · injection h with h; subst h; rfl
   have ht : target s' none = some (p, false) := by simp [target, topDflt, hd]
-  have hsf : topSavedFlow s' = false := by simp [topSavedFlow, topDflt, hd]
   obtain ⟨v, hv⟩ : ∃ v, (getFile s.files p).flow = some v := by
     rw [hm] at hsome
     cases hfl : (getFile s.files p).flow with
@@ -1419,7 +1191,7 @@ theorem resume_then_sample (s s' : Sess) (p : Nat) (k : SamplerKind) (c : Bool) 
     | some v => exact ⟨v, rfl⟩
   unfold okSample
   rw [ht]
-  cases hw : writesCkpt (effSampler s' k) c n <;> simp [hsf, hf, hm, hv]
+  cases hw : writesCkpt (effSampler s' k) c n <;> simp [hf, hm, hv]
 
 /-- **resuming a good file and continuing is always safe** (whatever sampler is asked for, the one that wrote the
     checkpoint is used, and its particles are weighted under the proposal that is in the file) -/
@@ -1458,19 +1230,23 @@ theorem resume_then_importance_safe (s s' : Sess) (p : Nat) (c : Bool) (n : Nat)
 
 /-! ### non-vacuity -/
 
-/-- refit + rerun to the same file (outside and inside a context), then resume and continue -/
+/-- refit + rerun to the same file (outside and inside a context, and twice inside one context), then resume and
+    continue -/
 def exRefit : List SOp :=
   [fit (some 1) false, sample smc (some 1) true 0, fit (some 1) false, sample smc (some 1) false 2,
-   enter 1 true, fit none false, sample smc none true 0, sample smc (some 1) true 0, SOp.exit,
+   enter 1 true, fit none false, sample smc none true 0, fit none false, sample smc (some 1) true 0, SOp.exit,
    resume 1, sample importance none true 0]
 
 example : Safe exRefit := by decide
-example : Disciplined exRefit := by decide
-example : SynSafe (exRefit.take 9) := by decide
+example : SynSafe (exRefit.take 10) := by decide
 example : AllConsistent (srun {} exRefit) = true := consistent_partial _ (by decide)
-/-- three different proposals were fitted and the file ends with the last one, its checkpoint weighted under it -/
+/-- four different proposals were fitted and the file ends with the last one, its checkpoint weighted under it -/
 example : getFile (srun {} exRefit).files 1
-    = { flow := some 3, hasConfig := true, cfgSampler := some smc, ckpt := some (3, smc) } := by decide
+    = { flow := some 4, hasConfig := true, cfgSampler := some smc, ckpt := some (4, smc) } := by decide
+
+/-- nested contexts, explicit other path inside a context, overwrite where no file is targeted -/
+example : SynSafe [fit none true, enter 1 true, enter 2 true, fit none false, sample smc (some 3) true 0,
+    sample smc none false 1, SOp.exit, fit (some 2) false, sample smc none true 0, SOp.exit, SOp.exit] := by decide
 
 /-- the usage documented in docs/checkpointing.rst: run in a context, crash, resume with the default sampler inside a
     context on the same file, crash again, resume again -/
@@ -1479,13 +1255,11 @@ def exDocumented : List SOp :=
    sample importance none false 1, SOp.exit, resume 1, sample importance none true 0]
 
 example : Safe exDocumented := by decide
-example : Disciplined exDocumented := by decide
 
-/-- safe but not disciplined: the refit inside the context is harmless because the context is left before sampling -/
-def exUndisciplined : List SOp :=
-  [enter 1 true, fit none false, sample smc none true 0, fit none false, SOp.exit, sample smc (some 1) true 0]
-
-example : Safe exUndisciplined ∧ ¬ Disciplined exUndisciplined := by decide
+/-- safe although outside the syntactic language: a run interrupted before its first checkpoint is harmless when
+    the proposal has not changed since the checkpoint in the file was written -/
+example : Safe [fit none false, sample smc (some 1) true 0, sample smc (some 1) false 0] ∧
+    ¬ SynSafe [fit none false, sample smc (some 1) true 0, sample smc (some 1) false 0] := by decide
 
 /-- the hypotheses of the single-step theorems are met by a concrete state -/
 example : (stepFit {} none false).memFlow = some 1 ∧ (stepFit {} none false).dstack = [] := by decide
@@ -1494,5 +1268,6 @@ example : (stepFit {} none false).memFlow = some 1 ∧ (stepFit {} none false).d
 example : ¬ Safe [fit none false, sample smc (some 1) true 0, fit (some 1) true] := by decide
 example : ¬ Safe [fit none false, sample smc (some 1) true 0, sample importance (some 1) true 0] := by decide
 example : ¬ Safe [fit none false, enter 1 false, sample smc none true 0] := by decide
+example : ¬ Safe [fit none false, sample smc (some 1) true 0, fit none false, sample smc (some 1) false 0] := by decide
 
 end C14
